@@ -467,4 +467,13 @@ def rule_c06r11(ctx):
     return r(ctx)
 
 
-RULES = [("C15-R1", rule_r1), ("C15-R2", rule_r2), ("C15-R3", rule_r3), ("C15-R4", rule_r4), ("C15-R5", rule_r5), ("C15-R6", rule_r6), ("C12-R7", rule_r7), ("C15-R8", rule_r8), ("C15-R9", rule_r9), ("C06-R11", rule_c06r11)]
+def rule_c12r5(ctx):
+    """Wrapping a method that the user already wrapped gives classmethod(classmethod(f)) /
+    staticmethod(staticmethod(f)): what that does depends on the runtime (wrapper objects are callable
+    from 3.10 on, chained classmethods exist in 3.9-3.12 only) - shared rule C12-R5."""
+    from .c12 import rule_r5 as r
+
+    return r(ctx)
+
+
+RULES = [("C12-R5", rule_c12r5), ("C15-R1", rule_r1), ("C15-R2", rule_r2), ("C15-R3", rule_r3), ("C15-R4", rule_r4), ("C15-R5", rule_r5), ("C15-R6", rule_r6), ("C12-R7", rule_r7), ("C15-R8", rule_r8), ("C15-R9", rule_r9), ("C06-R11", rule_c06r11)]
